@@ -227,6 +227,10 @@ var c01HostTaints = []struct {
 	{"contenteditable", func(n *html.Node) { n.Attr = append(n.Attr, html.Attribute{Key: "contenteditable", Val: "true"}) }},
 }
 
+// ---- sub-space 7: title tokens ---------------------------------------------------------------
+
+var c01TitleToks = []string{"Word", "Two words here", "A longer run of plain words for the title", " ", ":", ": ", "：", " - ", "-", "—", " | ", "|", "«", " » ", "/", " / ", "\\", " > ", "'", "\u00a0", ".", ",", "?", "(", ")", "·", "#", ".com", "&amp;"}
+
 // ---- enumeration -----------------------------------------------------------------------------
 
 func c01Enumerate(tier string, emit func(*eng.Case)) {
@@ -358,6 +362,28 @@ func c01Enumerate(tier string, emit func(*eng.Case)) {
 			}
 		}
 	}
+	// 7: <title> strings over separator-like tokens (title heuristics index into the string)
+	tl := 3
+	if thorough {
+		tl = 4
+	}
+	tt := make([]int, len(c01TitleToks))
+	for i := range tt {
+		tt[i] = i
+	}
+	seqEnum(tt, tl, func(seq []int) {
+		if len(seq) == 0 {
+			return
+		}
+		var sb strings.Builder
+		for _, x := range seq {
+			sb.WriteString(c01TitleToks[x])
+		}
+		title := sb.String()
+		for _, h1 := range []string{"", "same"} {
+			emit(&eng.Case{Kind: "title", P: map[string]string{"title": title, "h1": h1, "doc": fmt.Sprintf("<title>%s</title> h1=%s", title, h1)}})
+		}
+	})
 	// 5: byte strings for ApplyForReader
 	all := make([]int, len(c01Bytes))
 	for i := range all {
@@ -410,6 +436,14 @@ func c01Check(c *eng.Case) *eng.Outcome {
 		pi = eng.Protect(func() { res, err = distiller.ApplyForReader(bytes.NewReader([]byte(c.HTML)), c01Opts(c)) })
 	case "pager":
 		doc := ora.Parse(c.HTML)
+		pi = eng.Protect(func() { res, err = distiller.Apply(doc, c01Opts(c)) })
+	case "title":
+		t := &ora.Tok{}
+		h1 := ""
+		if c.Get("h1") == "same" {
+			h1 = "<h1>" + c.Get("title") + "</h1>"
+		}
+		doc := ora.Parse("<html><head><title>" + c.Get("title") + "</title></head><body><div>" + h1 + "<p>" + t.W(22) + "</p><p>" + t.W(21) + "</p></div></body></html>")
 		pi = eng.Protect(func() { res, err = distiller.Apply(doc, c01Opts(c)) })
 	case "host":
 		doc := ora.Parse(c05Skel)
@@ -489,7 +523,7 @@ func init() {
 		DesignRef: "§5 C01",
 		Rule: "five sub-spaces, each complete to its bound. (1) all ordered trees of hand-built nodes with <= 3 (quick) / <= 4 (thorough) nodes over 33 labels and of 4 / 5 nodes over 12 core labels, x every node as root attached (inside document>html>body) and detached, plus the document node and a bare document; " +
 			"(2) every tree of <= 2 / <= 3 nodes x every node x 11 field mutations (empty Data, upper-case tag, zero/wrong DataAtom, svg namespace, empty Attr slice, duplicate/empty attribute keys, Error/Doctype/Raw node types); (3) trees of <= 2 nodes x nil options and 16 URLs (IPv6, userinfo, non-ASCII host, mailto, relative, placeholder literal, escaped slash, ...) x log-flag sets x SkipPagination x algorithm; " +
-			"(4) a pager whose hrefs are scheme x host x path x query x fragment pieces with <= 2 pieces off default (quick) / full product (thorough) x 14 page URLs (case-folding hosts, placeholder literals, escapes) x both algorithms; (6) every element of the rich host document of C05 (all rendering paths) x 8 taints (hidden, display:none, children removed, aria-hidden, attributes removed, class=sidebar, display:block, contenteditable), singles and pairs (quick: pairs over the first 3 taints); (5) all ApplyForReader inputs of <= 3 / <= 4 tokens over 32 byte tokens and 4 / 5 over 12 core tokens, with and without URL. " +
+			"(4) a pager whose hrefs are scheme x host x path x query x fragment pieces with <= 2 pieces off default (quick) / full product (thorough) x 14 page URLs (case-folding hosts, placeholder literals, escapes) x both algorithms; (6) every element of the rich host document of C05 (all rendering paths) x 8 taints (hidden, display:none, children removed, aria-hidden, attributes removed, class=sidebar, display:block, contenteditable), singles and pairs (quick: pairs over the first 3 taints); (7) every <title> of <= 3 (quick) / <= 4 (thorough) tokens over 29 word/separator tokens (ASCII and full-width colon, dashes, pipes, guillemets, slashes, NBSP, punctuation), with and without an equal h1; (5) all ApplyForReader inputs of <= 3 / <= 4 tokens over 32 byte tokens and 4 / 5 over 12 core tokens, with and without URL. " +
 			"Oracle: no panic, step budget (2e7 hook events) not exceeded, worker process survives, and the call returns an error or a result whose Node is a div element. Non-trivial = anything but a plain document root with default options.",
 		Enumerate:        c01Enumerate,
 		Check:            c01Check,
